@@ -320,6 +320,11 @@ def r5_no_default_attributes(ctx, F, rule='C04-R5'):
             continue
         ctx.saw(f)
         rv = prov.prov_of(f).return_value()
+        # `convert_ref(..).map(|map| second_phase(difficulty, &map))`: the combinator and the second phase are read through
+        import combin
+        rv = combin.expand(F, rv)
+        rv = prov.inline_all(F, rv, depth=2, _seen=(f.path,), only=lambda f_: not f_.get('trait') and not f_.get('impl_adt') and
+                             (f_.get('path') or '').startswith(path.rsplit('::', 1)[0]) and f_.get('name') not in ('difficulty',), loops_ok=False)
 
         def alts(v, depth=0):
             v = prov.strip(v, names={'expect', 'unwrap'})
@@ -328,7 +333,7 @@ def r5_no_default_attributes(ctx, F, rule='C04-R5'):
                 for a in v[1]:
                     out += alts(a, depth + 1)
                 return out
-            if v[0] == 'agg' and v[1] == 'adt' and v[3] in ('Ok', 'Osu', 'Taiko', 'Catch', 'Mania') and '0' in v[4] and depth < 4:
+            if v[0] == 'agg' and v[1] == 'adt' and v[3] in ('Ok', 'Some', 'Osu', 'Taiko', 'Catch', 'Mania') and '0' in v[4] and depth < 4:
                 return alts(v[4]['0'], depth + 1)
             return [v]
         bad = []
